@@ -103,6 +103,13 @@ def observe_case(term, sp, res, deep=False):
                                               'model': [inf['ty'], inf['rep']], 'text_equal': info.get('drift_text') is False}
     if not res['ok']:
         fails.append(('accepted', {'observed': 'ok', 'emitted': emitted, 'expected_ex': sorted(res['ex'])}))
+        # whatever the specification expected: a pattern that was handed out must be a valid regular expression (C03)
+        try:
+            re.compile(emitted, O.FLAGS)
+        except re.error as e:
+            fails.append(('compile', {'emitted': emitted, 'error': str(e), 'expected_ex': sorted(res['ex'])}))
+        except RecursionError:
+            pass
         return fails, info
     if res['ref'] == '' and emitted != '':
         fails.append(('emptytext', {'emitted': emitted}))
